@@ -112,6 +112,36 @@ class GaussStep(Gauss):
         return np.floor(out * 4.0) * 0.25
 
 
+class GaussBA(Model):
+    """Two parameters whose names are NOT in sorted order ("b" before "a"), with different
+    bounds, and a likelihood that is not symmetric under swapping them: any place that sorts
+    names, or pairs values with the wrong parameter, shows up as a log-likelihood / log-prior
+    mismatch or a point outside the bounds."""
+
+    def __init__(self, vectorised=True):
+        self.names = ["b", "a"]
+        self.bounds = {"b": [0.0, 10.0], "a": [-5.0, 5.0]}
+        self.allow_vectorised = vectorised
+
+    def log_prior(self, x):
+        return np.log(self.in_bounds(x), dtype="float64") - np.log(100.0)
+
+    def log_likelihood(self, x):
+        return (x["b"] - 3.0) * (x["b"] - 3.0) * (-0.5) + (x["a"] + 1.0) * (x["a"] + 1.0) * (-2.0)
+
+    def to_unit_hypercube(self, x):
+        x_out = x.copy()
+        x_out["b"] = x["b"] / 10.0
+        x_out["a"] = (x["a"] + 5.0) / 10.0
+        return x_out
+
+    def from_unit_hypercube(self, x):
+        x_out = x.copy()
+        x_out["b"] = 10.0 * x["b"]
+        x_out["a"] = 10.0 * x["a"] - 5.0
+        return x_out
+
+
 class GaussTilt(GaussRamp):
     """Ramp prior on x0 but a LINEAR map to the unit hypercube: the prior in the hypercube is
     not flat (density 2u on the first axis) and the model says so by overriding
@@ -231,6 +261,8 @@ def make(name="G2", **kw):
         return GaussCut(2, **kw)
     if name == "G2hole":
         return GaussHole(2, **kw)
+    if name == "G2ba":
+        return GaussBA(**kw)
     if name == "G2tilt":
         return GaussTilt(2, **kw)
     if name == "G2open":
